@@ -1,11 +1,11 @@
 """C07 — coroutine mutex: mutual exclusion and exactly-once grant (mutex.h, awaiter.h)."""
 from props import mutexcommon
-RULE = ("controlled schedules (real threads, one runnable at a time; the harness supplies std::atomic<awaiter*>, so EVERY atomic operation on mutex::_requests is a scheduling point, marked by the library or not; further points: m_pub, the blocking "
+RULE = ("part ctl_mutex: controlled schedules (real threads, one runnable at a time; the harness supplies std::atomic<awaiter*>, so EVERY atomic operation on mutex::_requests is a scheduling point, marked by the library or not; further points: m_pub, the blocking "
         "flag wait, inside the critical section and at every round boundary) of 2-4 contenders (coroutines / blocking threads), 1-3 rounds "
         "each, acquisition by co_await lock() / lock().wait() / try_lock(), release by ownership destruction / release() discarded / "
         "co_await release(); random, bursty, highest-first and sparse-preemption schedules, a malformed-declaration stream, and directed schedules (all interleavings of a release with a request in flight, try_lock racing unlock, two late arrivals between an owner's publishing CAS and its build_queue with 4 contenders, 4 parties on 3 threads with a thread still in await_suspend, retry windows (other contenders complete whole operations between two adjacent atomic operations of a requester), the same schedule under every release flavour and every blocking/coroutine mix); thorough adds "
         "every schedule prefix of length 13 (2 contenders x 2 rounds) / 9 (3 x 1) and all pairs of single-step preemptions; "
-        "non-trivial = at least 3 OS-thread switches in the executed trace; distinct = distinct (contenders, schedule)")
+        "non-trivial = at least 3 OS-thread switches in the executed trace; distinct = distinct (contenders, schedule); part seq_own: sequential op sequences (4-24 ops) over two mutexes and four ownership slots: try_lock into a slot, callback-style requests (await_suspend(resume_fn)) whose grant is stored into a slot - also the slot being released / overwritten -, release (twice), destruction, move assignment onto holding / empty / the same slot, move construction, bool, probing try_lock; non-trivial = at least 5 ops of at least 3 kinds")
 SCOPE = ("mutex::ready/subscribe/build_queue/unlock/try_lock/lock, mutex::ownership (deleter, release), co_awaiter<mutex> "
          "await_ready/await_suspend/await_resume/sync/wait, sync_awaiter, coro_queue resume/flush_queue/install_queue_and_call, "
          "suspend_point<void> destructor and await_suspend as used by the mutex")
@@ -13,6 +13,8 @@ ASSUMPTIONS = ["interleaving at the granularity of atomic operations (each load 
                "between two points, including the build_queue loop on the detached chain, is one step); sequentially consistent",
                "a blocking lock().wait() is only issued from a plain thread (the library asserts this), co_await only from coroutines"]
 def gen(seed, tier): return mutexcommon.gen(seed, tier, "mutex")
-nontrivial = mutexcommon.nontrivial
+def gen_own(seed, tier): return mutexcommon.gen_own(seed, tier, "mutex")
+nontrivial = mutexcommon.nontrivial_any
 signature = mutexcommon.signature
-PARTS = [{"name": "ctl_mutex", "harness": "ctl_mutex.cpp", "gen": gen, "no_shrink": False, "timeout_case": 10}]
+PARTS = [{"name": "ctl_mutex", "harness": "ctl_mutex.cpp", "gen": gen, "no_shrink": True, "timeout_case": 5},
+         {"name": "seq_own", "harness": "seq_mutex_own.cpp", "gen": gen_own, "no_shrink": False, "timeout_case": 5}]
